@@ -7,6 +7,11 @@
 (* separator inside a key or a value (a value containing the separator is   *)
 (* not expressible in the format: it reads as two tokens).                  *)
 (* Capitalised keys are outside the law (information only).                 *)
+(* An atom (key, value part, bare word) stands for ANY spelling without     *)
+(* the three structural characters ' ' ';' '=': quote characters,           *)
+(* backslashes, brackets, escapes, control characters and multi-byte runes  *)
+(* mean nothing to the design.  The harness runs every sequence of this     *)
+(* universe on the real code in this spelling and in other spellings.       *)
 (***************************************************************************)
 EXTENDS UdpPack, TLC
 
